@@ -398,6 +398,15 @@ func (store *KeyStore) WriteKeyFile(filename string, data []byte, mode os.FileMo
 	if err != nil {
 		return err
 	}
+	// the temporary file must not outlive a write that did not complete
+	renamed := false
+	defer func() {
+		if !renamed {
+			if err := store.fs.Remove(tmpFilename); err != nil {
+				log.WithError(err).WithField("path", tmpFilename).Warn("Failed to remove temporary key file")
+			}
+		}
+	}()
 	err = store.fs.WriteFile(tmpFilename, data, mode)
 	if err != nil {
 		return err
@@ -410,6 +419,7 @@ func (store *KeyStore) WriteKeyFile(filename string, data []byte, mode os.FileMo
 	if err != nil {
 		return err
 	}
+	renamed = true
 	// the previous version now lives in the history directory: a cached list of
 	// historical file names for this key no longer tells the whole story
 	store.refreshCachedHistoricalFilenames(filename)
